@@ -49,6 +49,15 @@ POSITIONS = [
     ('create_from', 'CREATE TABLE int1.n (SELECT * FROM {A}.t2)', ['t2']),
     ('delete_where_subquery', 'DELETE FROM int1.t1 WHERE id IN (SELECT id FROM {A}.t2)', ['t2']),
     ('nested_two_levels', 'SELECT * FROM int1.t1 WHERE id IN (SELECT id FROM int1.t3 WHERE c IN (SELECT b FROM {A}.t2))', ['t1', 't3', 't2']),
+    # a sub-query / CTE / derived table whose own FROM joins a table of the outer integration with the probed table
+    ('in_subquery_join', 'SELECT * FROM int1.t1 WHERE id IN (SELECT t3.id FROM int1.t3 JOIN {A}.t2 ON t3.id = t2.id)', ['t1', 't3', 't2']),
+    ('in_subquery_join_rev', 'SELECT * FROM int1.t1 WHERE id IN (SELECT t2.id FROM {A}.t2 JOIN int1.t3 ON t3.id = t2.id)', ['t1', 't2', 't3']),
+    ('target_subquery_join', 'SELECT id, (SELECT max(t2.b) FROM int1.t3 JOIN {A}.t2 ON t3.id = t2.id) AS m FROM int1.t1', ['t1', 't3', 't2']),
+    ('exists_subquery_join', 'SELECT * FROM int1.t1 WHERE EXISTS (SELECT t3.id FROM int1.t3 JOIN {A}.t2 ON t3.id = t2.id)', ['t1', 't3', 't2']),
+    ('from_subselect_join', 'SELECT * FROM (SELECT t1.id FROM int1.t1 JOIN {A}.t2 ON t1.id = t2.id) AS s', ['t1', 't2']),
+    ('cte_join_body', 'WITH c AS (SELECT t1.id FROM int1.t1 JOIN {A}.t2 ON t1.id = t2.id) SELECT * FROM c', ['t1', 't2']),
+    ('union_three', 'SELECT id FROM int1.t1 UNION SELECT id FROM {A}.t2 UNION SELECT id FROM int1.t3', ['t1', 't2', 't3']),
+    ('subquery_same_integration_as_probe', 'SELECT * FROM {A}.t2 WHERE id IN (SELECT t1.id FROM int1.t1 JOIN {A}.t2 AS u ON t1.id = u.id)', ['t2', 't1', 't2']),
 ]
 
 MODEL_POSITIONS = [
@@ -61,6 +70,12 @@ MODEL_POSITIONS = [
     ('model_in_subquery', 'SELECT * FROM int2.t2 WHERE id IN (SELECT t1.id FROM int1.t1 JOIN {M}.pred)', ['t2', 't1'], [('pred', None)]),
     ('insert_select_model', 'INSERT INTO int2.t2 SELECT * FROM int1.t1 JOIN {M}.pred', ['t1'], [('pred', None)]),
     ('two_models', 'SELECT * FROM int1.t1 JOIN {M}.pred JOIN {M}.pred2', ['t1'], [('pred', None), ('pred2', None)]),
+    # two references to one model in one statement, with different versions
+    ('union_two_versions', 'SELECT * FROM {M}.pred.1 WHERE a = 1 UNION ALL SELECT * FROM {M}.pred.2 WHERE a = 1', [], [('pred', '1'), ('pred', '2')]),
+    ('union_version_and_plain', 'SELECT * FROM {M}.pred WHERE a = 1 UNION ALL SELECT * FROM {M}.pred.7 WHERE a = 1', [], [('pred', None), ('pred', '7')]),
+    ('union_plain_after_version', 'SELECT * FROM {M}.pred.7 WHERE a = 1 UNION ALL SELECT * FROM {M}.pred WHERE a = 1', [], [('pred', '7'), ('pred', None)]),
+    ('join_two_versions', 'SELECT * FROM int1.t1 JOIN {M}.pred.1 AS p1 JOIN {M}.pred.2 AS p2', ['t1'], [('pred', '1'), ('pred', '2')]),
+    ('subquery_two_versions', 'SELECT * FROM int1.t1 JOIN {M}.pred.1 WHERE t1.id IN (SELECT t3.id FROM int1.t3 JOIN {M}.pred.2)', ['t1', 't3'], [('pred', '1'), ('pred', '2')]),
 ]
 
 CATALOGS = ['names_list', 'dicts_list', 'names_legacy', 'dicts_default', 'upper_names']
@@ -190,6 +205,14 @@ class CHECK(Check):
         msteps = [s for s in steps if isinstance(s, (S.ApplyPredictorStep, S.ApplyPredictorRowStep, S.GetPredictorColumns))]
         for (mname, version) in models:
             hits = [s for s in msteps if mname in [str(p) for p in s.predictor.parts]]
+            if len([m for m in models if m[0] == mname]) > 1:
+                # several references to this model: the one with this version (or without any)
+                want_n = len([m for m in models if m == (mname, version)])
+                hits = [s for s in hits if (version in [str(p) for p in s.predictor.parts]) if version is not None] if version is not None else \
+                    [s for s in hits if not any(str(p).isdigit() for p in s.predictor.parts)]
+                if len(hits) != want_n:
+                    out.append((f'model-version-lost|{pl}', f'{sql!r} [{cat}]: {len(hits)} apply steps for model {mname} version {version}, expected {want_n}\n    {plan.steps}'))
+                continue
             if len(hits) != 1:
                 out.append((f'model-step-count|{pl}', f'{sql!r} [{cat}]: model {mname} has {len(hits)} apply steps\n    {plan.steps}'))
                 continue
